@@ -36,9 +36,11 @@ Definition is_hook (n : node) : bool :=
 Fixpoint hook_count (n : node) : nat :=
   match n with
   | Node t cs =>
-      (if is_hook (Node t cs) then 1 else 0) +
-      (fix go (l : list node) : nat :=
-         match l with [] => 0 | c :: l' => hook_count c + go l' end) cs
+      if leaf (Node t cs) || is_ident (Node t cs) then 0
+      else
+        (if is_hook (Node t cs) then 1 else 0) +
+        (fix go (l : list node) : nat :=
+           match l with [] => 0 | c :: l' => hook_count c + go l' end) cs
   end.
 
 Definition hook_count_list (l : list node) : nat :=
@@ -166,3 +168,24 @@ Fixpoint hook_sites (n : node) : list (string * (N * N)) :=
       (fix go (l : list node) : list (string * (N * N)) :=
          match l with [] => [] | c :: l' => hook_sites c ++ go l' end) cs
   end.
+
+(** ** References to the hook namespace: a purely additive measure (one per hook call site in an
+    output of the rewriter, where [_ddiast] is only ever emitted as the object of a hook callee). *)
+Definition is_ns_ident (n : node) : bool :=
+  match n with
+  | Node (K KIdent _ _) (_ :: Node (Str s) [] :: _) => String.eqb s gen_DD_GLOBAL_NAMESPACE
+  | _ => false
+  end.
+
+Fixpoint ns_count (n : node) : nat :=
+  match n with
+  | Node t cs =>
+      if is_ident (Node t cs) then (if is_ns_ident (Node t cs) then 1 else 0)
+      else if leaf (Node t cs) then 0
+      else
+        (fix go (l : list node) : nat :=
+           match l with [] => 0 | c :: l' => ns_count c + go l' end) cs
+  end.
+
+Definition ns_count_list (l : list node) : nat :=
+  fold_right (fun c acc => ns_count c + acc) 0 l.
